@@ -48,6 +48,11 @@ def templates():
     T["tet-CH2FCl"] = (*_star("C", ["H", "H", "F", "Cl"], TET, BOND_LEN), "Tetrahedral")
     T["tet-CH4"] = (*_star("C", ["H", "H", "H", "H"], TET, BOND_LEN), "Tetrahedral")
     T["tet-CFClBrI"] = (*_star("C", ["F", "Cl", "Br", "I"], TET, BOND_LEN), "Tetrahedral")
+    # see-saw centres (a trigonal bipyramid with one equatorial position empty): four neighbours, not planar, and the centre lies
+    # OUTSIDE the tetrahedron spanned by its ligands
+    SEESAW = np.array([TBP[0], TBP[1], TBP[2], TBP[3]])
+    T["seesaw-SFClBrI"] = (*_star("S", ["F", "Cl", "Br", "I"], SEESAW, {k: v + 0.25 for k, v in BOND_LEN.items()}), "Tetrahedral")
+    T["seesaw-SClFIBr"] = (*_star("S", ["Cl", "F", "I", "Br"], SEESAW, {k: v + 0.25 for k, v in BOND_LEN.items()}), "Tetrahedral")
     T["sp-PtFClBrI"] = (*_star("Pt", ["F", "Cl", "Br", "I"], SQ, METAL_LEN), "SquarePlanar")
     T["sp-PtCl2Br2-cis"] = (*_star("Pt", ["Cl", "Cl", "Br", "Br"], SQ, METAL_LEN), "SquarePlanar")
     T["sp-PtCl2Br2-trans"] = (*_star("Pt", ["Cl", "Br", "Cl", "Br"], SQ, METAL_LEN), "SquarePlanar")
